@@ -33,24 +33,50 @@ def run(rep):
     for b in range(n):
         T, A = int(rng.integers(2, 25)), int(rng.integers(1, 5))
         w = md.make_walk(rng, T, A)
-        traj, G = md.build(rng, fams[b % 6], ['chol', 'pmg', 'rot'][b % 3], w, ['Li'] * A, dt_fs=int(rng.integers(1, 4)))
+        traj, G = md.build(rng, fams[b % len(fams)], ['chol', 'pmg', 'rot'][b % 3], w, ['Li'] * A, dt_fs=int(rng.integers(1, 4)))
         recs.append({'b': b, 'G': G, 'w': w.tolist(), 'm': [1] * A, 'speeds': [], 'parts': [], 'want': {'msd': True}})
         trajs.append((traj, w))
+    # every third case: the trajectory is given to the code in two pieces; the first piece is analysed (and judged), then
+    # extended in place with the second piece, and the whole is analysed again -- analysis results must not be stale
+    pieces = {}
+    for b in range(0, n, 3):
+        traj, w = trajs[b]
+        T = w.shape[0]
+        if T < 4:
+            continue
+        cut = int(rng.integers(2, T - 1))
+        first, second = traj[:cut], traj[cut:]
+        pieces[b] = (first, second)
+        recs.append({'b': n + b, 'G': recs[b]['G'], 'w': w[:cut].tolist(), 'm': [1] * w.shape[1], 'speeds': [], 'parts': [], 'want': {'msd': True}})
+        trajs.append((first, w[:cut]))
     exp = core.run_oracle('TraceMetrics', recs, timeout=2400)
     rep.add_trace_stats()
-    for b, ((traj, w), e) in enumerate(zip(trajs, exp)):
+    # after the first pieces have been judged below (in order), extend them and judge the extended object against the full walk
+    order = list(range(n, len(trajs))) + list(range(n))
+    extended = False
+    for b in order:
+        if b < n and not extended:
+            for b0, (first, second) in pieces.items():
+                first.extend(second)
+                trajs[b0] = (first, trajs[b0][1])         # the extended object now stands for the whole walk
+            extended = True
+        (traj, w), e = trajs[b], exp[b]
         T, A, _ = w.shape
         rep.evaluations += 1
         if np.abs(w).max() >= md.N:
             rep.nontrivial += 1
-        msd = traj.mean_squared_displacement()
+        msd = np.asarray(traj.mean_squared_displacement())
         bad = None
+        dist = np.asarray(traj.distances_from_base_position())
+        if msd.shape != (A, T) or dist.shape != (A, T):
+            rep.violation({'kind': 'oracle', 'clause': 'result-shape' + ('' if b >= n or b not in pieces else '-after-extend'),
+                           'detail': [list(msd.shape), list(dist.shape), [A, T]], 'family': fams[b % len(fams)]})
+            continue
         for a in range(A):
             scale = max(1.0, float(max(e['msd'][a])) * T)
             for tau in range(T):
                 if not md.close(msd[a, tau] * md.N ** 2 * (T - tau), e['msd'][a][tau], rel=1e-8, scale=scale):
                     bad = ('msd', a, tau, float(msd[a, tau]), e['msd'][a][tau] / (md.N ** 2 * (T - tau)))
-        dist = traj.distances_from_base_position()
         for a in range(A):
             for t in range(T):
                 if not md.close(dist[a, t] ** 2 * md.N ** 2, e['dist'][a][t]):
@@ -61,8 +87,9 @@ def run(rep):
             if not md.close(num, e['tracer']):
                 bad = bad or ('tracer-diffusivity', d, D, e['tracer'])
         if bad:
-            rep.violation({'kind': 'oracle', 'clause': bad[0], 'detail': bad[1:], 'family': fams[b % 6], 'walk': w.tolist(), 'G': recs[b]['G']})
+            rep.violation({'kind': 'oracle', 'clause': bad[0] + ('' if b >= n or b not in pieces else '-after-extend'), 'detail': bad[1:], 'family': fams[b % len(fams)], 'walk': w.tolist(), 'G': recs[b]['G']})
         elif b % 25 == 0:
-            rep.sample({'family': fams[b % 6], 'T': T, 'A': A, 'walk_last': w[-1].tolist(), 'expected_tracer_num': e['tracer'],
+            rep.sample({'family': fams[b % len(fams)], 'T': T, 'A': A, 'after_extend': b in pieces, 'walk_last': w[-1].tolist(), 'expected_tracer_num': e['tracer'],
                         'expected_msd_num_atom0': e['msd'][0][:6]})
-    rep.traces += n
+    rep.traces += len(trajs)
+    rep.extra['analysed_again_after_extend'] = len(pieces)
